@@ -55,7 +55,7 @@ def histories_simulated(c, depth, num, load=False):
 
 def random_histories(c, n, length):
     """Histories longer than the exhaustive bound, drawn from the same operation alphabet."""
-    data = {"sha256": ["h1", "h2", "h31"], "x509": ["c1", "c2", "c3", "p1", "p3", "p1b", "p3n"], "sha1": ["s1", "h1"], "bogus": ["u1"], "extern": ["e1"]}
+    data = {"sha256": ["h1", "h2", "h31", "h33", "h48"], "x509": ["c1", "c2", "c3", "p1", "p3", "p1b", "p3n"], "sha1": ["s1", "h1"], "bogus": ["u1"], "extern": ["e1"]}
     hs = []
     for _ in range(n):
         ops, have_sl, sl_t, sl_n = [], False, None, 0
